@@ -93,11 +93,14 @@ def array_rule(ctx, p, K):
         ok = ok and len(tg) == 1 and isinstance(tg[0], ast.Tuple) and len(tg[0].elts) == 2
         if ok:
             vname, iname = norm_text(tg[0].elts[0]), norm_text(tg[0].elts[1])
-            rs = [norm_text(n.value) for n in mm.body_nodes() if isinstance(n, ast.Assign) and norm_text(n.targets[0]) == "new_indices"]
-            ok = rs == [f"{iname}.reshape(-1, 3)"]
             rets = wire.returns_of(mm)
-            kwv = {k: norm_text(v) for k, v in wire.kw(rets[0].value).items()} if rets and isinstance(rets[0].value, ast.Call) else {}
-            ok = ok and kwv.get("vertices") == vname and (kwv.get("indices") == "new_indices" or meth == "neighborhood")
+            kwn = wire.kw(rets[0].value) if rets and isinstance(rets[0].value, ast.Call) else {}
+            # the indices are the inverse map regrouped 3 per triangle (directly or through a local); the vertices are the unique rows
+            ind = wire.inline_locals(mm, kwn["indices"]) if "indices" in kwn else None
+            ok = norm_text(kwn.get("vertices")) == vname and (meth == "neighborhood" or (ind is not None and norm_text(ind) == f"{iname}.reshape(-1, 3)"))
+            if meth == "neighborhood":
+                rs = [norm_text(n.value) for n in mm.body_nodes() if isinstance(n, ast.Assign) and norm_text(n.targets[0]) == "new_indices"]
+                ok = ok and rs == [f"{iname}.reshape(-1, 3)"]
         ctx.ob("C20.selection", mm.key, ok, where=mm, node=mm.node, construct=norm_text(uq[0])[:120] if uq else "", message=f"{meth} must de-duplicate the vertices of exactly the triangles produced by {src} (rows of 2 coordinates) and index them through the inverse map, 3 per triangle")
     # neighbourhood de-duplicates whole triangles irrespective of vertex order
     mm = arr.lookup("neighborhood")
@@ -108,12 +111,19 @@ def array_rule(ctx, p, K):
     ctx.ob("C20.neighborhood", mm.key + ":unique", ok and kwv.get("indices") == "unique_triangles_indices", where=mm, node=mm.node, construct=str(kwv), message="duplicate triangles (same three vertices in any order) must be removed and nothing else")
     # for_indexes: the selected triangles' own vertices, re-indexed
     mm = arr.lookup("for_indexes")
-    txt = {norm_text(n.targets[0]): norm_text(n.value) for n in mm.body_nodes() if isinstance(n, ast.Assign)}
-    ok = txt.get("selected_indices") == "self.indices[indexes]" and txt.get("flat_indices") == "selected_indices.flatten()" and txt.get("new_indices") == "inverse_indices.reshape(selected_indices.shape)" \
-        and txt.get("(unique_vertices, inverse_indices)") == "np.unique(self.vertices[flat_indices], axis=0, return_inverse=True)"
     rets = wire.returns_of(mm)
-    kwv = {k: norm_text(v) for k, v in wire.kw(rets[0].value).items()} if rets and isinstance(rets[0].value, ast.Call) else {}
-    ctx.ob("C20.selection", mm.key, ok and kwv == {"indices": "new_indices", "vertices": "unique_vertices"}, where=mm, node=mm.node, construct=str(txt)[:300], message="selection by index must keep exactly the selected triangles' vertices and re-index them consistently")
+    kwn = wire.kw(rets[0].value) if rets and isinstance(rets[0].value, ast.Call) else {}
+    uq = [c for c in mm.calls() if norm_text(c.func) in ("np.unique", "numpy.unique")]
+    tg = [n.targets[0] for n in mm.body_nodes() if isinstance(n, ast.Assign) and uq and n.value is uq[0]]
+    ok = len(uq) == 1 and len(tg) == 1 and isinstance(tg[0], ast.Tuple) and len(tg[0].elts) == 2
+    txt = {}
+    if ok:
+        vname, iname = norm_text(tg[0].elts[0]), norm_text(tg[0].elts[1])
+        # name-free: the unique rows of the selected triangles' vertices, and the inverse map regrouped like the selected index block
+        txt = {"unique of": norm_text(wire.inline_locals(mm, uq[0].args[0])), "axis": norm_text(wire.kw(uq[0]).get("axis")), "return_inverse": norm_text(wire.kw(uq[0]).get("return_inverse")),
+               "indices": norm_text(wire.inline_locals(mm, kwn["indices"])) if "indices" in kwn else None, "vertices": norm_text(kwn.get("vertices"))}
+        ok = txt == {"unique of": "self.vertices[self.indices[indexes].flatten()]", "axis": "0", "return_inverse": "True", "indices": f"{iname}.reshape(self.indices[indexes].shape)", "vertices": vname}
+    ctx.ob("C20.selection", mm.key, ok and set(kwn) == {"indices", "vertices"}, where=mm, node=mm.node, construct=str(txt)[:300], message="selection by index must keep exactly the selected triangles' vertices and re-index them consistently")
     mm = arr.lookup("with_vertices")
     rets = wire.returns_of(mm)
     kwv = {k: norm_text(v) for k, v in wire.kw(rets[0].value).items()} if rets and isinstance(rets[0].value, ast.Call) else {}
